@@ -196,7 +196,7 @@ Definition run_vc (cmd : string) (args : list string) : option (list string) :=
     match args with
     | [sa] =>
       Some match cparse false sa with
-           | Ok a => [show_bool (h_goodc a); show_bool (h_sorted a); show_bool (h_nondeg a)]
+           | Ok a => [show_bool (h_goodc a); show_bool (h_sorted a); show_bool (h_nondeg a); show_bool (h_apart_all (flatten a))]
            | _ => ["badoperand"] end
     | _ => None end
   else if seq cmd "chyp2" then    (* the hypotheses of the difference theorem on a pair of operands *)
